@@ -6,6 +6,7 @@ import (
 	"encoding/hex"
 	"encoding/json"
 	"fmt"
+	"hash/fnv"
 	"os"
 	"path/filepath"
 	"regexp"
@@ -14,6 +15,7 @@ import (
 	"time"
 
 	"github.com/ajitpratap0/GoSQLX/pkg/gosqlx"
+	"github.com/ajitpratap0/GoSQLX/pkg/metrics"
 	"github.com/ajitpratap0/GoSQLX/pkg/models"
 	"github.com/ajitpratap0/GoSQLX/pkg/sql/parser"
 	"github.com/ajitpratap0/GoSQLX/pkg/sql/token"
@@ -29,6 +31,14 @@ func init() {
 			names = append(names, n)
 		}
 		sort.Strings(names)
+		// every other input runs with metrics collection switched on (the library then also reports each run, and each
+		// error, to the metrics package)
+		h := fnv.New32a()
+		_, _ = h.Write(data)
+		if h.Sum32()%2 == 0 {
+			metrics.Enable()
+			defer metrics.Disable()
+		}
 		for _, n := range names {
 			if ans := runEntry(n, data); strings.HasPrefix(ans, "panic") {
 				return n + ":" + ans
